@@ -423,20 +423,35 @@ def gen_span_programs(tier: str, rnd: random.Random) -> list[dict]:
     return progs
 
 
+ABSENT = {"k": "absent", "a": [], "s": ""}
+READ_ONLY_APIS = {"read_device_info", "read_runtime_data", "read_sensor", "read_setting", "read_settings_data",
+                  "get_grid_export_limit", "get_operation_mode", "get_operation_modes", "get_ongrid_battery_dod",
+                  "goodwe.connect", "goodwe.discover", "goodwe.search_inverters"}
+
+
 def extract_spans(trace: dict, ts: TableSet, frames: "FrameTab") -> list[dict]:
+    """One span per public call.  Calls may carry an annotation {"span": {...}} set by the program generator
+    (guard / documented / decode); read-only-ness follows from the API name (the list of C18)."""
     prog = trace["prog"]
-    fam = prog["inv"][0]["family"]
+    fam = prog["inv"][0].get("family") or "ET"
     fr = "tcp" if prog["inv"][0].get("port", 8899) == 502 else "rtu"
+    calls = {i: c for i, c in enumerate(prog.get("calls", []))}
     spans = []
     cur = None
     pending = None
-    last_bulk = None
+    last_bulk = {}        # api kind -> span (waiting for its table)
+    last_res = {}         # "runtime"/"settings" -> (res dict, table listing)
+    prev_failed = False
+    tables = {}           # "sensors"/"settings" -> latest listing
     for ev in trace["ev"]:
         e = ev["e"]
         if e == "CALL":
-            cur = {"api": ev["api"], "resp": [], "args": ev.get("args", [])}
+            cur = {"api": ev["api"], "resp": [], "args": ev.get("args", []), "ci": ev.get("ci", -1)}
             pending = None
         elif e == "SEND" and cur is not None:
+            if pending is not None:
+                f = "aa55" if pending[:4] == b"\xaa\x55\xc0\x7f" else fr
+                cur["resp"].append({"fr": f, "req": frames.fid(pending), "ans": 0})
             pending = ev["data"]
         elif e == "DLV" and cur is not None and pending is not None:
             req = pending
@@ -444,20 +459,72 @@ def extract_spans(trace: dict, ts: TableSet, frames: "FrameTab") -> list[dict]:
             cur["resp"].append({"fr": f, "req": frames.fid(req), "ans": frames.fid(ev["data"])})
             pending = None
         elif e == "RET" and cur is not None:
+            if pending is not None:
+                f = "aa55" if pending[:4] == b"\xaa\x55\xc0\x7f" else fr
+                cur["resp"].append({"fr": f, "req": frames.fid(pending), "ans": 0})
+                pending = None
             api = ev["api"]
+            ann = (calls.get(cur["ci"], {}) or {}).get("span", {})
+            if api in ("table:sensors", "table:settings"):
+                kind = "runtime" if api == "table:sensors" else "settings"
+                tables[api[6:]] = ev["table"]
+                sp = last_bulk.pop(kind, None)
+                if sp is not None:
+                    sp["tab"] = ts.tab(ev["table"])
+                    sp["_listing"] = ev["table"]
+                cur = None
+                continue
+            sp = {"fam": fam, "api": api, "call": api, "tab": 0, "entry": 0, "single": False, "resp": cur["resp"],
+                  "ok": bool(ev.get("ok")), "exc": ev.get("exc", ""), "full": bool(ann.get("full", True)), "res": {},
+                  "modbus": fam in ("ET", "DT"), "prevFailed": False, "ro": api in READ_ONLY_APIS,
+                  "guard": bool(ann.get("guard", False)), "documented": bool(ann.get("documented", False)),
+                  "bulk": ABSENT, "unknown": "nknown" in ev.get("msg", ""), "failed": bool(ev.get("failed", False)),
+                  "decode": bool(ann.get("decode", True)), "_ann": ann}
             if api in ("read_runtime_data", "read_settings_data"):
-                sp = {"fam": fam, "api": "runtime" if api == "read_runtime_data" else "settings", "tab": 0, "entry": 0,
-                      "single": False, "resp": cur["resp"], "ok": bool(ev.get("ok")), "exc": ev.get("exc", ""),
-                      "full": True, "res": {}}
-                if ev.get("ok"):
-                    sp["res"] = {k: val_from_proj(v) for k, v in ev["_raw"].items()} if "_raw" in ev else {}
-                last_bulk = sp
+                kind = "runtime" if api == "read_runtime_data" else "settings"
+                sp["api"] = kind
+                if ev.get("ok") and "_raw" in ev:
+                    sp["res"] = {k: val_from_proj(v) for k, v in ev["_raw"].items()}
+                    last_res[kind] = sp
+                if kind == "runtime":
+                    sp["prevFailed"] = prev_failed
+                    prev_failed = not ev.get("ok")
+                last_bulk[kind] = sp
+            elif api in ("read_sensor", "read_setting") and cur["args"]:
+                sid = cur["args"][0]
+                kind = "runtime" if api == "read_sensor" else "settings"
+                lst = tables.get("sensors" if api == "read_sensor" else "settings")
+                sp["single"] = True
+                sp["api"] = "sensor" if api == "read_sensor" else "setting"
+                idx = 0
+                if lst:
+                    for k, ent in enumerate(lst):
+                        if ent["id"] == sid:
+                            idx = k + 1
+                    sp["tab"] = ts.tab(lst)
+                sp["entry"] = idx
+                if ev.get("ok") and "_single" in ev:
+                    sp["res"] = {sid: val_from_proj(ev["_single"])}
+                b = last_res.get(kind)
+                if b is not None and ann.get("pair", True) and sid in b["res"]:
+                    sp["bulk"] = b["res"][sid]
+                if idx == 0:
+                    sp = None          # id not in a listing: nothing to judge against
+            else:
+                sp["decode"] = False
+                if tables.get("sensors"):
+                    sp["tab"] = ts.tab(tables["sensors"])
+            if sp is not None:
                 spans.append(sp)
-            elif api in ("table:sensors", "table:settings") and last_bulk is not None:
-                last_bulk["tab"] = ts.tab(ev["table"])
-                last_bulk = None
             cur = None
-    return [s for s in spans if s["tab"] != 0]
+    out = []
+    for sp in spans:
+        if sp["tab"] == 0:
+            if sp["api"] in ("runtime", "settings") or sp["single"]:
+                continue
+            sp["tab"] = 1 if ts.tables else ts.tab([])
+        out.append(sp)
+    return out
 
 
 def val_from_proj(v):
@@ -513,7 +580,8 @@ def run_program_values(prog: dict) -> dict:
         if ev["e"] in ("CALL", "SEND", "DLV"):
             out.append({k: ev[k] for k in ("e", "api", "args", "data") if k in ev})
         elif ev["e"] == "RET":
-            d = {"e": "RET", "api": ev["api"], "ok": ev.get("ok", False), "exc": ev.get("exc", "")}
+            d = {"e": "RET", "api": ev["api"], "ok": ev.get("ok", False), "exc": ev.get("exc", ""),
+                 "msg": ev.get("msg", ""), "failed": ev.get("failed", False)}
             if "table" in ev:
                 d["table"] = ev["table"]
             v = ev.get("val")
@@ -537,7 +605,8 @@ def judge_spans(run: Run, traces: list[dict], own: tuple[str, ...], batch_spans:
         nonlocal ts, ft, cur_spans, cur_src
         if cur_spans:
             path = os.path.join(run.workdir, f"spans_{len(batches):04d}.json")
-            tlc.write_json(path, {"frames": ft.frames, "labels": ts.labels, "tables": ts.tables, "spans": cur_spans})
+            clean = [{k: v for k, v in sp.items() if not k.startswith("_")} for sp in cur_spans]
+            tlc.write_json(path, {"frames": ft.frames + [[]], "labels": ts.labels, "tables": ts.tables, "spans": clean})
             batches.append((path, cur_spans, cur_src))
         ts, ft, cur_spans, cur_src = TableSet(), FrameTab(), [], []
 
@@ -574,6 +643,7 @@ def judge_spans(run: Run, traces: list[dict], own: tuple[str, ...], batch_spans:
                         continue
                     clause, _, sensor = c.partition(":")
                     detail = {"family": sp["fam"], "api": sp["api"], "exc": sp.get("exc", ""), "sensor": sensor}
+                    detail.update(sp.get("_ann", {}).get("detail", {}))
                     run.violation(clause, detail, {"program": prog, "span_api": sp["api"]})
             os.remove(path)
     run.cov["traces_validated_against_impl"] += nsp
